@@ -550,6 +550,15 @@ class C04(PropertyCheck):
             call = 'fv(' + ', '.join(a.expr() for a in args) + ')'
             add('function-value-call', f'let fv = {f.expr()};\nlet v = {call};', f'let fv = {f.expr()};\nlet probe: Probe0 = {call};',
                 f'obs_value_call {f.coq()} {clist(args)}', {'function': f.show(), 'window': [nreq, n], 'arguments': [a.show() for a in args]})
+        # ---------- designated: function VALUES whose parameter / return types mention a generic of the enclosing function,
+        #            called with bottom-typed arguments (the enclosing generic must come back unchanged)
+        for f, args in [(fn(2, [prim('str'), gen('U')], comp('Q', gen('U'))), [prim('str'), UNK]), (fn(1, [gen('T')], gen('T')), [UNK]),
+                        (fn(1, [gen('T')], nat('Sequence', gen('T'))), [UNK]), (fn(2, [gen('T'), gen('U')], tup(gen('U'), gen('T'))), [UNK, gen('U')]),
+                        (fn(1, [nat('Optional', gen('U'))], gen('U')), [nat('Optional', UNK)]), (fn(1, [gen('T')], gen('T')), [gen('T')])]:
+            for spell in (lambda_expr, lambda t: t.expr()):
+                call = 'fv(' + ', '.join(a.expr() for a in args) + ')'
+                add('function-value-call', f'let fv = {spell(f)};\nlet v = {call};', f'let fv = {spell(f)};\nlet probe: Probe0 = {call};',
+                    f'obs_value_call {f.coq()} {clist(args)}', {'function': f.show(), 'arguments': [a.show() for a in args], 'designated': True})
         # ---------- two different compounds with the same name at different scope levels are different types
         shadow = [('let', 'let p: Pt = origin();'), ('output', 'fn r1() -> Pt { origin() }'), ('argument', 'fn a1(x: Pt) -> int { 0 }\nlet v = a1(origin());'),
                   ('struct-field', 'struct W(f: Pt)\nlet v = W(origin());'), ('literal', 'let v = [origin(), Pt("s")];'), ('let-inner-ok', 'let p: Pt = Pt("s");')]
